@@ -6,7 +6,7 @@ design matrix, never through normal equations; everything is evaluated in float6
 """
 from fractions import Fraction
 import numpy as np
-from numpy.polynomial import legendre as _L, chebyshev as _C, polynomial as _P
+from numpy.polynomial import legendre as _L, chebyshev as _C
 
 CANON = {'legendre': 'legendre', 'flegendre': 'legendre', 'chebyshev': 'chebyshev', 'fchebyshev': 'chebyshev',
          'chebyshev_split': 'chebyshev_split', 'fchebyshev_split': 'chebyshev_split', 'poly': 'poly', 'fpoly': 'poly'}
